@@ -68,7 +68,7 @@ func conservationRules(f *framing, rule string, o consOpts) []ssa.Value {
 }
 
 func checkC02(c *Ctx) {
-	c.Explanation = "Decides byte conservation of the framer on every CFG path: (R1) each byte successfully obtained from the input is appended exactly once to the frame buffer, on the success edge of its read, before the next read, return or hand-over, and no stale version of the buffer is ever used; (R2) every exit of the fetcher returns the whole buffer as a non-RTCM message with a nil error, or trims exactly the trailing start byte that it pushes back, or hands the whole buffer to the single-frame decoder, whose every return carries its whole input or the prefix input[:L+6] — and the framer hands it exactly L+6 bytes (affine loop invariants; the two evaluations of the leader helper agree by the reviewed lemma L-helper-pure whose premises are re-checked); a nil message is returned only when nothing was consumed; (R3) no delivered message is empty; (R4) the push-back channel returns pushed-back bytes first, oldest first, then channel bytes unchanged; (R5) the stream handler forwards every fetched message by value before the next fetch, through one push-back channel for the whole stream, and closes its output exactly once, on 'done', which only a closed input produces; (R6) the framing stage contains no select, goroutine start, clock or mutable package state, so its output is a function of the byte sequence alone (Kahn determinism: independent of channel capacities and timings)."
+	c.Explanation = "Decides byte conservation of the framer on every CFG path: (R1) each byte successfully obtained from the input is appended exactly once to the frame buffer, on the success edge of its read, before the next read, return or hand-over, and no stale version of the buffer is ever used; (R2) every exit of the fetcher returns the whole buffer as a non-RTCM message with a nil error, or trims exactly the trailing start byte that it pushes back, or hands the whole buffer to the single-frame decoder, whose every return carries its whole input or the prefix input[:L+6] — and the framer hands it exactly L+6 bytes (affine loop invariants; the two evaluations of the leader helper agree by the reviewed lemma L-helper-pure whose premises are re-checked); a nil message is returned only when nothing was consumed; (R3) no delivered message is empty; (R4) the push-back channel returns pushed-back bytes first, oldest first, then channel bytes unchanged; (R5) the stream handler forwards every fetched message by value before the next fetch, through one push-back channel for the whole stream, and closes its output exactly once, on 'done', which only a closed input produces; (R6) the framing stage contains no select, goroutine start, clock or mutable package state, so its output is a function of the byte sequence alone (Kahn determinism: independent of channel capacities and timings). (R6) nothing reachable from the stream handler can panic (the C07 obligations restricted to that root): an input that aborts the handler loses every byte after it."
 	c.NotDecided = "that append, slicing and channels behave as the language specifies; the numerical meaning of the 10-bit length (C03/C14)."
 	f := newFraming(c, "C02-anchor")
 	if f == nil {
@@ -80,6 +80,14 @@ func checkC02(c *Ctx) {
 	ruleStreamClose(c, f.pl, "C02-R5")
 	ruleStreamTermination(c, f.pl, "C02-R5")
 	ruleKahn(c, f.pl, "C02-R6")
+	// the stream handler cannot be made to abort by any input: the no-panic obligations (C07 engine)
+	// of everything reachable from it
+	if hm := c.P.Func("rtcm/handler", "(*Handler).HandleMessages"); hm != nil {
+		runBounds(c, "C02-R6", []*ssa.Function{hm})
+		c.MinInstances("C02-R6", 50)
+	} else {
+		c.Unresolved("C02-R6", "rtcm/handler.(*Handler).HandleMessages")
+	}
 	c.MinInstances("C02-R1", 8)
 	c.MinInstances("C02-R2", 25)
 	c.MinInstances("C02-R4", 4)
@@ -138,7 +146,7 @@ func checkC01(c *Ctx) {
 }
 
 func checkC12(c *Ctx) {
-	c.Explanation = "Decides that a CRC failure costs exactly one frame: (R1) on the CRC-failure edge the single-frame decoder returns a non-RTCM message holding its whole input, which is the whole candidate frame of exactly L+6 bytes (exact-count rule); (R2) while the candidate is read the framer has no content-dependent exit and no push-back, so corruption inside payload or CRC (including new 0xD3 bytes) cannot move the frame boundary; the leader is untouched by assumption, so L is the same; (R3) the fetcher returns the decoder's message unchanged; (R4) the CRC gate compares all three bytes (a corrupted frame is not accepted) and the conservation rules of C02 hold, so the neighbours are delivered exactly as without the corruption; the five-byte leader helper rejects on leader content only (R2), and (R5) every call in the decoder that can change the handler's week state is dominated by the CRC-success edge, so the neighbours' reported times are untouched as well."
+	c.Explanation = "Decides that a CRC failure costs exactly one frame: (R1) on the CRC-failure edge the single-frame decoder returns a non-RTCM message holding its whole input, which is the whole candidate frame of exactly L+6 bytes (exact-count rule); (R2) while the candidate is read the framer has no content-dependent exit and no push-back, so corruption inside payload or CRC (including new 0xD3 bytes) cannot move the frame boundary; the leader is untouched by assumption, so L is the same; (R3) the fetcher returns the decoder's message unchanged; (R4) the CRC gate compares all three bytes (a corrupted frame is not accepted) and the conservation rules of C02 hold, so the neighbours are delivered exactly as without the corruption; the five-byte leader helper rejects on leader content only (R2), and (R5) every call in the decoder that can change the handler's week state is dominated by the CRC-success edge, so the neighbours' reported times are untouched as well. (R6) nothing reachable from the stream handler can panic (the C07 obligations restricted to that root), so a corrupted frame cannot take the frames after it down with it."
 	c.NotDecided = "that a corrupted frame's CRC really differs (probability 2^-24 of an undetected error is inherent to the CRC)."
 	f := newFraming(c, "C12-anchor")
 	if f == nil {
@@ -181,6 +189,14 @@ func checkC12(c *Ctx) {
 	f.ruleStreamForward("C12-R3")
 	// the neighbours' reported times too: a rejected frame must not advance the week state
 	ruleStateOnlyForVerifiedFrames(c, "C12-R5")
+	// the stream handler cannot be made to abort by any input: the no-panic obligations (C07 engine)
+	// of everything reachable from it
+	if hm := c.P.Func("rtcm/handler", "(*Handler).HandleMessages"); hm != nil {
+		runBounds(c, "C12-R6", []*ssa.Function{hm})
+		c.MinInstances("C12-R6", 50)
+	} else {
+		c.Unresolved("C12-R6", "rtcm/handler.(*Handler).HandleMessages")
+	}
 	c.MinInstances("C12-R5", 1)
 	c.MinInstances("C12-R1", 1)
 	c.MinInstances("C12-R2", 3)
